@@ -219,6 +219,15 @@ pub struct X2Report {
 /// Iterative deepening: depth 1, 2, ... each a complete enumeration; stops when the next level cannot finish in time.
 pub fn search<M: Model>(ctx: &Ctx, model: &M, prop: &'static str, max_depth: usize, deadline_s: f64, dedupe_on: bool) -> X2Report {
     let mut rep = X2Report { completed_depth: 0, states: 0, execs: 0, transitions: 0, agg: Agg::default(), per_depth: vec![], partial_depth: None };
+    // determinism self-check: the same three-event history twice - same observation hash, same choice points
+    {
+        let h = X2Harness { model, depth: 3, prop, dedupe_on: false };
+        let a = h.run(&[1, 2, 1], &Seen::new(false));
+        let b = h.run(&[1, 2, 1], &Seen::new(false));
+        if a.obs_hash != b.obs_hash || a.trace.len() != b.trace.len() {
+            rep.agg.diverged.push(format!("model {} is not deterministic: two executions of the same history differ", model.name()));
+        }
+    }
     let mut last_time = 0.0;
     let mut last_execs = 1u64;
     let mut growth = model.n_events() as f64 / 2.0;
